@@ -84,7 +84,7 @@ def record_dec_cases(rng, n, walks_bias=0.4):
         for j in range(4):
             start = cf.pick_start(rng, live)
             # a walk from start (as far as it goes), then possibly corrupted
-            L = rng.choice([0, 1, 2, 5, 12, 40, 120])
+            L = rng.choice([0, 1, 2, 5, 12, 28, 33, 37, 40, 45, 120])
             s, v = [], start
             for _ in range(L):
                 if not live[v]:
@@ -155,6 +155,9 @@ def run(ctx):
     na = flow_a(ctx, MINE)
     ctx.exhaustive = True
     nb = flow_b(ctx, MINE, 100 if ctx.quick else 1000, 6)
+    if not ctx.quick:
+        from vlib import suiteflow
+        suiteflow.judge(ctx, mine_coding=MINE)           # Flow S: the repository's own tests as trace sources
     ctx.assumptions += ["fast mode is judged only on graphs without out-degree 3 and strings whose walkable prefix carries at most "
                         "the requested number of bits (decided by TLC)", "foreign characters are drawn from a fixed rotating set"]
     return {"scope": {"flowA_behaviours": na, "flowB_cases": nb}}
